@@ -1556,6 +1556,8 @@ func (tx *Transaction) AuditLog() *auditlog.Log {
 				content, err := io.ReadAll(reader)
 				if err == nil {
 					al.Transaction_.Request_.Body_ = string(content)
+				} else {
+					tx.debugLogger.Error().Err(err).Msg("Failed to read the request body for the audit log")
 				}
 			}
 
